@@ -50,6 +50,13 @@ def c01_ledger(obs, sc=0):
     tix = task_index(obs)
     leaf_res = {r["id"] for r in obs["res"] if r["leaf"]}
     shared = 0
+    # the clock: the project's own slot -> instant map must put slot s at start + s * L, so that different slots never
+    # cover the same instants (a resource booked in two slots would otherwise work for two tasks at once)
+    bad_clock = 0
+    for s, d in sorted((obs.get("slotdates") or {}).items()):
+        if d != slot_start(obs, s) and bad_clock < 2:
+            bad_clock += 1
+            v.append(("slot-clock", f"slot {s} is mapped to {d} by the project, but slots are {L}s long from {obs['pstart']}: expected {slot_start(obs, s)}"))
     for r, slots in obs["ledger"].get(sc, {}).items():
         if r not in leaf_res:
             v.append(("group-booked", f"resource group {r} carries ledger entries"))
